@@ -44,12 +44,13 @@ structure Prog (s0 : State) (P : List ObjId) (s : State) : Prop where
   statusNone : s0.sp = none → ∀ j, (s0.objs j).status ≠ .ghost → (s.objs j).status = (s0.objs j).status
   markedCached : ∀ k j, marked s k → s0.cache.get k = some j →
     marked s0 k ∨ (s0.objs j).status ≠ .ghost
+  ghostStays : ∀ j, (s0.objs j).status = .ghost → (s.objs j).status = .ghost
 
 theorem Prog.refl {s : State} (h : Str [] s) : Prog s [] s := by
   refine ⟨h, h, rfl, rfl, Nat.le_refl _, fun _ _ h => h, fun _ _ => ⟨rfl, rfl, rfl⟩, fun _ h => h,
     fun _ h => h, ?_, fun _ _ h => h, fun _ _ h => Or.inl h, fun _ _ h => h, fun _ h => Or.inl h, rfl,
     fun _ _ => Or.inl rfl, fun _ _ _ => rfl, fun _ => Or.inl rfl, ?_, fun _ _ => rfl,
-    fun _ _ _ => rfl, fun _ _ h _ => Or.inl h⟩
+    fun _ _ _ => rfl, fun _ _ h _ => Or.inl h, fun _ h => h⟩
   · intro i k h1 h2; rw [h1] at h2; cases h2
   · intro j hj; cases hj
 
@@ -154,7 +155,10 @@ theorem storeOne_step {s : State} {i k : Nat} {rest : List Nat}
     (hnew : s.added.get k ≠ none → isNewObj s (s.objs i) k = true)
     (hc : isNewObj s (s.objs i) k = false → s.cache.get k = some i) :
     StepSpec s i k rest (storeOne s i).1.1 (storeOne s i).2 ∧
-    ((storeOne s i).1.2 = none → StoredSpec s i k (storeOne s i).1.1) := by
+    ((storeOne s i).1.2 = none → StoredSpec s i k (storeOne s i).1.1) ∧
+    ((storeOne s i).1.2 ≠ none → s.sp.isSome = true →
+      (storeOne s i).1.1.sp = s.sp ∧ (storeOne s i).1.1.objs = s.objs ∧
+      (storeOne s i).1.1.staged = s.staged) := by
   -- after the bookkeeping the object is in the cache and not in `_added`
   have hcC : ∀ k', (classify s i k).cache.get k' = if k' = k then some i else s.cache.get k' := by
     intro k'
@@ -199,7 +203,8 @@ theorem storeOne_step {s : State} {i k : Nat} {rest : List Nat}
     simp only at herr1 ⊢
     have herr1 := herr1 (by simp)
     subst herr1
-    refine ⟨?_, fun h => by simp at h⟩
+    refine ⟨?_, fun h => by simp at h,
+      fun _ _ => ⟨classify_sp s i k, classify_objs s i k, classify_staged s i k⟩⟩
     constructor
     · simpa using hstrC
     · simp
@@ -248,9 +253,10 @@ theorem storeOne_step {s : State} {i k : Nat} {rest : List Nat}
     have hnext3 := storeRec_nextOid s2 i k ⟨(a1.objs i).serial, (a1.objs i).val, (a1.objs i).refs⟩
     have hsp3 := storeRec_spSome s2 i k ⟨(a1.objs i).serial, (a1.objs i).val, (a1.objs i).refs⟩
     have htc3 := storeRec_tmpCr s2 i k ⟨(a1.objs i).serial, (a1.objs i).val, (a1.objs i).refs⟩
+    have hoktmp := storeRec_tmp_ok s2 i k ⟨(a1.objs i).serial, (a1.objs i).val, (a1.objs i).refs⟩
     generalize storeRec s2 i k ⟨(a1.objs i).serial, (a1.objs i).val, (a1.objs i).refs⟩ = r at *
     obtain ⟨s3, e3⟩ := r
-    simp only [books, Prod.mk.injEq] at hobj3 hcache3 hbooks3 hctx3 hnext3 hsp3 htc3 hnone3 htmp3 ⊢
+    simp only [books, Prod.mk.injEq] at hobj3 hcache3 hbooks3 hctx3 hnext3 hsp3 htc3 hnone3 htmp3 hoktmp ⊢
     have hcache : ∀ k', s3.cache.get k' = if k' = k then some i else s.cache.get k' := by
       intro k'
       rcases hcache3 with h | h
@@ -369,7 +375,13 @@ theorem storeOne_step {s : State} {i k : Nat} {rest : List Nat}
         intro j hj
         simp only [List.mem_append, List.mem_reverse] at hj ⊢
         exact hj.symm)
-    refine ⟨?_, ?_⟩
+    refine ⟨?_, ?_, ?_⟩
+    rotate_right
+    · intro hfail hspS
+      exfalso
+      apply hfail
+      have hsp2 : s2.sp.isSome = true := by rw [hstores2.1, hstores1.1]; exact hspS
+      exact hoktmp hsp2
     · constructor
       · exact hstr3
       · exact ser.nodup
@@ -764,6 +776,21 @@ theorem storeOne_prog {s0 s : State} {i k : Nat} {rest : List Nat} {s3 : State} 
       · have := hP.base.cacheS k' j hc
         rw [h] at this; cases this
 
+  · -- ghostStays
+    intro j hg0
+    have hgs := hP.ghostStays j hg0
+    rcases hobj j with h | h | h
+    · rw [h]; exact hgs
+    · exfalso
+      have hji := h.1
+      subst hji
+      have hl := h.2.2.2.2.2.1 hgs
+      rcases hknown with h1 | h1 | h1
+      · exact h1.2 hg0
+      · exact hl (hnorec (Or.inr ⟨k, hP.addedSub k j h1⟩) hgs)
+      · exact hl (hnorec (Or.inl h1) hgs)
+    · rw [h.2.2.2.1]; exact hgs
+
 /-! ### the `finally` clause: what is left on the stack after an error is disowned -/
 
 theorem disownPending_prog {s0 s : State} {j : Nat} {P : List Nat}
@@ -897,6 +924,10 @@ theorem disownPending_prog {s0 s : State} {j : Nat} {P : List Nat}
     · subst hxj; rw [hj]
     · rw [hobj x hxj]; exact hP.statusNone hsp0 x hg
   · exact hP.markedCached
+  · intro x hg
+    by_cases hxj : x = j
+    · subst hxj; rw [hj]; exact hg
+    · rw [hobj x hxj]; exact hP.ghostStays x hg
 
 theorem dropStack_prog {s0 : State} : ∀ (P : List Nat) (s : State), Prog s0 P s →
     (∀ j ∈ P, (s0.objs j).oid = none) → P.Nodup → Prog s0 [] (dropStack s P) := by
@@ -950,7 +981,10 @@ theorem storeOne_loop {s0 s : State} (hN : NewOK s0) {i : Nat} {rest : List Nat}
     (hP : Prog s0 (i :: rest) s) (hnr : NoRec s0 s) (hnd : (i :: rest).Nodup)
     (hst : ∀ j ∈ i :: rest, StackOK s0 s j) (hpend : ∀ j ∈ rest, (s0.objs j).oid = none) :
     ∃ k, (s.objs i).oid = some k ∧ StepSpec s i k rest (storeOne s i).1.1 (storeOne s i).2 ∧
-      ((storeOne s i).1.2 = none → StoredSpec s i k (storeOne s i).1.1) ∧
+      (((storeOne s i).1.2 = none → StoredSpec s i k (storeOne s i).1.1) ∧
+        ((storeOne s i).1.2 ≠ none → s.sp.isSome = true →
+          (storeOne s i).1.1.sp = s.sp ∧ (storeOne s i).1.1.objs = s.objs ∧
+          (storeOne s i).1.1.staged = s.staged)) ∧
       Prog s0 ((storeOne s i).2.reverse ++ rest) (storeOne s i).1.1 ∧
       ((storeOne s i).2.reverse ++ rest).Nodup ∧
       (∀ j ∈ (storeOne s i).2.reverse ++ rest, StackOK s0 (storeOne s i).1.1 j) ∧
@@ -1059,28 +1093,63 @@ theorem StepSpec.added_self {s i k rest s3 pushed} (sp : StepSpec s i k rest s3 
     | none => rfl
     | some j => exact absurd ⟨hnew (by rw [ha]; simp), rfl⟩ hn
 
+/-- a second property carried through the successful iterations: it is established for the stored
+    object and kept for all others ("the object with this oid is clean", under a TmpStore) -/
+def StepQ (J : State → Prop) (Q : State → Nat → Prop) : Prop :=
+  ∀ s i k rest s3 pushed, J s → Str (i :: rest) s → (s.objs i).oid = some k →
+    StepSpec s i k rest s3 pushed → StoredSpec s i k s3 → Q s3 k ∧ ∀ k', Q s k' → Q s3 k'
+
+theorem stepQ_true (J : State → Prop) : StepQ J (fun _ _ => True) :=
+  fun _ _ _ _ _ _ _ _ _ _ _ => ⟨trivial, fun _ _ => trivial⟩
+
+/-- an invariant that survives a failed iteration and the `finally` clause: it follows from `J`, is kept
+    by a failed iteration (described by `StepSpec` and, under a TmpStore, by the fact that neither the
+    store nor the objects changed), and by disowning a pending object -/
+structure FailInv (J F : State → Prop) : Prop where
+  ofJ : ∀ s, J s → F s
+  fail : ∀ s i k rest s3 pushed, J s → Str (i :: rest) s → (s.objs i).oid = some k →
+    StepSpec s i k rest s3 pushed →
+    (s.sp.isSome = true → s3.sp = s.sp ∧ s3.objs = s.objs ∧ s3.staged = s.staged) → F s3
+  drop : ∀ s j, F s → F (disownPending s j)
+
+theorem failInv_true (J : State → Prop) : FailInv J (fun _ => True) :=
+  ⟨fun _ _ => trivial, fun _ _ _ _ _ _ _ _ _ _ _ => trivial, fun _ _ _ => trivial⟩
+
+theorem FailInv.dropStack {J F : State → Prop} (hF : FailInv J F) :
+    ∀ (stack : List Nat) (s : State), F s → F (dropStack s stack) := by
+  intro stack
+  induction stack with
+  | nil => intro s h; exact h
+  | cons j rest ih =>
+    intro s h
+    simp only [ZodbModel.Conn.dropStack, List.foldl_cons]
+    exact ih _ (hF.drop s j h)
+
 /-- the loop, started with only new objects pending -/
 theorem storeObjects_pending {s0 : State} (hN : NewOK s0) {J : State → Prop} (hJ : StepInv J)
-    (hJN : ∀ P s, Prog s0 P s → J s → NoRec s0 s) :
+    (hJN : ∀ P s, Prog s0 P s → J s → NoRec s0 s) {Q : State → Nat → Prop} (hQ : StepQ J Q)
+    {F : State → Prop} (hF : FailInv J F) :
     ∀ (fuel : Nat) (s : State) (stack : List ObjId), Prog s0 stack s → J s → stack.Nodup →
       (∀ j ∈ stack, StackOK s0 s j) → (∀ j ∈ stack, (s0.objs j).oid = none) →
       ((storeObjects fuel s stack).2 = none →
         Prog s0 [] (storeObjects fuel s stack).1 ∧ J (storeObjects fuel s stack).1 ∧
-        Mono s (storeObjects fuel s stack).1) ∧
-      ((storeObjects fuel s stack).2 ≠ none → Prog s0 [] (storeObjects fuel s stack).1) := by
+        Mono s (storeObjects fuel s stack).1 ∧ ∀ k', Q s k' → Q (storeObjects fuel s stack).1 k') ∧
+      ((storeObjects fuel s stack).2 ≠ none →
+        Prog s0 [] (storeObjects fuel s stack).1 ∧ F (storeObjects fuel s stack).1) := by
   intro fuel
   induction fuel with
   | zero =>
     intro s stack hP hj hnd _ h0
     cases stack with
-    | nil => exact ⟨fun _ => ⟨hP, hj, Mono.refl s⟩, fun h => absurd rfl h⟩
+    | nil => exact ⟨fun _ => ⟨hP, hj, Mono.refl s, fun _ h => h⟩, fun h => absurd rfl h⟩
     | cons i rest =>
       simp only [storeObjects]
-      exact ⟨fun h => by simp at h, fun _ => dropStack_prog _ _ hP h0 hnd⟩
+      exact ⟨fun h => by simp at h,
+        fun _ => ⟨dropStack_prog _ _ hP h0 hnd, hF.dropStack _ _ (hF.ofJ s hj)⟩⟩
   | succ n ih =>
     intro s stack hP hj hnd hst h0
     cases stack with
-    | nil => exact ⟨fun _ => ⟨hP, hj, Mono.refl s⟩, fun h => absurd rfl h⟩
+    | nil => exact ⟨fun _ => ⟨hP, hj, Mono.refl s, fun _ h => h⟩, fun h => absurd rfl h⟩
     | cons i rest =>
       have hpend : ∀ j ∈ rest, (s0.objs j).oid = none := fun j hj => h0 j (List.mem_cons_of_mem _ hj)
       obtain ⟨k, hk, sp, hstored, hprog, hnd', hst', hp0⟩ := storeOne_loop hN hP (hJN _ s hP hj) hnd hst hpend
@@ -1088,25 +1157,33 @@ theorem storeObjects_pending {s0 : State} (hN : NewOK s0) {J : State → Prop} (
       cases hres : (storeOne s i).1.2 with
       | none =>
         simp only
-        have hj3 := hJ s i k rest _ _ hj hP.str hk sp (hstored hres)
+        have hj3 := hJ s i k rest _ _ hj hP.str hk sp (hstored.1 hres)
         obtain ⟨ih1, ih2⟩ := ih (storeOne s i).1.1 _ hprog hj3 hnd' hst' hp0
         refine ⟨fun h => ?_, ih2⟩
-        obtain ⟨h1, h2, h3⟩ := ih1 h
-        exact ⟨h1, h2, sp.mono.trans h3⟩
+        obtain ⟨h1, h2, h3, h4⟩ := ih1 h
+        exact ⟨h1, h2, sp.mono.trans h3,
+          fun k' hk' => h4 k' ((hQ s i k rest _ _ hj hP.str hk sp (hstored.1 hres)).2 k' hk')⟩
       | some e =>
         simp only
-        exact ⟨fun h => by simp at h, fun _ => storeOne_fail_drop hN hP (hJN _ s hP hj) hnd hst hpend⟩
+        refine ⟨fun h => by simp at h,
+          fun _ => ⟨storeOne_fail_drop hN hP (hJN _ s hP hj) hnd hst hpend, ?_⟩⟩
+        apply hF.dropStack
+        exact hF.fail s i k rest _ _ hj hP.str hk sp (hstored.2 (by rw [hres]; simp))
 
 /-- `_store_objects(ObjectWriter(obj))` for a registered object -/
 theorem storeObjects_top {s0 : State} (hN : NewOK s0) {J : State → Prop} (hJ : StepInv J)
-    (hJN : ∀ P s, Prog s0 P s → J s → NoRec s0 s) (n : Nat) (s : State) (i : ObjId) (hP : Prog s0 [] s) (hj : J s) (hst : StackOK s0 s i)
+    (hJN : ∀ P s, Prog s0 P s → J s → NoRec s0 s) {Q : State → Nat → Prop} (hQ : StepQ J Q)
+    {F : State → Prop} (hF : FailInv J F)
+    (n : Nat) (s : State) (i : ObjId) (hP : Prog s0 [] s) (hj : J s) (hst : StackOK s0 s i)
     (hi0 : (s0.objs i).oid ≠ none) :
     ((storeObjects (n + 1) s [i]).2 = none →
       Prog s0 [] (storeObjects (n + 1) s [i]).1 ∧ J (storeObjects (n + 1) s [i]).1 ∧
       Mono s (storeObjects (n + 1) s [i]).1 ∧
+      (∀ k', Q s k' → Q (storeObjects (n + 1) s [i]).1 k') ∧
       (∀ k, (s.objs i).oid = some k → marked (storeObjects (n + 1) s [i]).1 k ∧
-        (storeObjects (n + 1) s [i]).1.added.get k = none)) ∧
-    ((storeObjects (n + 1) s [i]).2 ≠ none → Prog s0 [] (storeObjects (n + 1) s [i]).1) := by
+        (storeObjects (n + 1) s [i]).1.added.get k = none ∧ Q (storeObjects (n + 1) s [i]).1 k)) ∧
+    ((storeObjects (n + 1) s [i]).2 ≠ none →
+      Prog s0 [] (storeObjects (n + 1) s [i]).1 ∧ F (storeObjects (n + 1) s [i]).1) := by
   have hP1 : Prog s0 [i] s := by
     refine { hP with str := hP.str.mono (by simp), newTracked := ?_, fresh0 := ?_, pendFresh := ?_ }
     · intro x k h1 h2
@@ -1130,14 +1207,15 @@ theorem storeObjects_top {s0 : State} (hN : NewOK s0) {J : State → Prop} (hJ :
   cases hres : (storeOne s i).1.2 with
   | none =>
     simp only
-    have hj3 := hJ s i k [] _ _ hj hP1.str hk sp (hstored hres)
-    obtain ⟨ih1, ih2⟩ := storeObjects_pending hN hJ hJN n (storeOne s i).1.1 _ hprog hj3 hnd' hst' hp0
+    have hj3 := hJ s i k [] _ _ hj hP1.str hk sp (hstored.1 hres)
+    obtain ⟨ih1, ih2⟩ := storeObjects_pending hN hJ hJN hQ hF n (storeOne s i).1.1 _ hprog hj3 hnd' hst' hp0
     refine ⟨fun h => ?_, ih2⟩
-    obtain ⟨h1, h2, h3⟩ := ih1 h
-    refine ⟨h1, h2, sp.mono.trans h3, ?_⟩
+    obtain ⟨h1, h2, h3, h4⟩ := ih1 h
+    have hq := hQ s i k [] _ _ hj hP1.str hk sp (hstored.1 hres)
+    refine ⟨h1, h2, sp.mono.trans h3, fun k' hk' => h4 k' (hq.2 k' hk'), ?_⟩
     intro k' hk'
     rw [hk] at hk'; cases hk'
-    refine ⟨h3.1 _ sp.marked_self, ?_⟩
+    refine ⟨h3.1 _ sp.marked_self, ?_, h4 _ hq.1⟩
     obtain ⟨k2, hk2, hnew2, _⟩ := hst
     rw [hk] at hk2; cases hk2
     have := sp.added_self hnew2
@@ -1146,27 +1224,36 @@ theorem storeObjects_top {s0 : State} (hN : NewOK s0) {J : State → Prop} (hJ :
     | some j => have := h3.2 k j hc; simp_all
   | some e =>
     simp only
-    exact ⟨fun h => by simp at h, fun _ => storeOne_fail_drop hN hP1 (hJN _ s hP1 hj) hnd hst1 hpend⟩
+    refine ⟨fun h => by simp at h,
+      fun _ => ⟨storeOne_fail_drop hN hP1 (hJN _ s hP1 hj) hnd hst1 hpend, ?_⟩⟩
+    apply hF.dropStack
+    exact hF.fail s i k [] _ _ hj hP1.str hk sp (hstored.2 (by rw [hres]; simp))
 
 /-! ### the loop of `_commit` over the registered objects -/
 
 theorem commitLoop_prog {s0 : State} (hN : NewOK s0)
     (hA : ∀ k j, s0.added.get k = some j → isNewObj s0 (s0.objs j) k = true)
-    {J : State → Prop} (hJ : StepInv J) (hJN : ∀ P s, Prog s0 P s → J s → NoRec s0 s) (n : Nat) :
+    {J : State → Prop} (hJ : StepInv J) (hJN : ∀ P s, Prog s0 P s → J s → NoRec s0 s)
+    {Q : State → Nat → Prop} (hQ : StepQ J Q)
+    (hQskip : ∀ s, Prog s0 [] s → J s → ∀ i k, (s.objs i).oid = some k → s.added.has k = false →
+      (s.creating.has k = true ∨ (s.objs i).status ≠ .changed) → Q s k)
+    {F : State → Prop} (hF : FailInv J F) (n : Nat) :
     ∀ (regs : List ObjId) (s : State), Prog s0 [] s → J s → (∀ i ∈ regs, (s0.objs i).oid ≠ none) →
       ((commitLoop (n + 1) s regs).2 = none →
         Prog s0 [] (commitLoop (n + 1) s regs).1 ∧ J (commitLoop (n + 1) s regs).1 ∧
         Mono s (commitLoop (n + 1) s regs).1 ∧
+        (∀ k', Q s k' → Q (commitLoop (n + 1) s regs).1 k') ∧
         (∀ i ∈ regs, ∀ k, (s0.objs i).oid = some k →
-          (commitLoop (n + 1) s regs).1.added.get k = none ∧
+          (commitLoop (n + 1) s regs).1.added.get k = none ∧ Q (commitLoop (n + 1) s regs).1 k ∧
           ((s0.added.get k = some i ∨ (s0.objs i).status = .changed) →
             marked (commitLoop (n + 1) s regs).1 k))) ∧
-      ((commitLoop (n + 1) s regs).2 ≠ none → Prog s0 [] (commitLoop (n + 1) s regs).1) := by
+      ((commitLoop (n + 1) s regs).2 ≠ none →
+        Prog s0 [] (commitLoop (n + 1) s regs).1 ∧ F (commitLoop (n + 1) s regs).1) := by
   intro regs
   induction regs with
   | nil =>
     intro s hP hj _
-    exact ⟨fun _ => ⟨hP, hj, Mono.refl s, by simp⟩, fun h => absurd rfl h⟩
+    exact ⟨fun _ => ⟨hP, hj, Mono.refl s, fun _ h => h, by simp⟩, fun h => absurd rfl h⟩
   | cons i rest ih =>
     intro s hP hj hreg
     have hi0 := hreg i List.mem_cons_self
@@ -1203,21 +1290,21 @@ theorem commitLoop_prog {s0 : State} (hN : NewOK s0)
               have := hP.noChange i hcond.2
               rw [hg] at this; cases this
           · exact Or.inr (Or.inl h)
-      have hso := storeObjects_top hN hJ hJN n s i hP hj hst hi0
+      have hso := storeObjects_top hN hJ hJN hQ hF n s i hP hj hst hi0
       cases hres : (storeObjects (n + 1) s [i]).2 with
       | none =>
         simp only
-        obtain ⟨h1, h2, h3, h4⟩ := hso.1 hres
+        obtain ⟨h1, h2, h3, h3q, h4⟩ := hso.1 hres
         obtain ⟨ih1, ih2⟩ := ih (storeObjects (n + 1) s [i]).1 h1 h2 hrest
         refine ⟨fun h => ?_, ih2⟩
-        obtain ⟨g1, g2, g3, g4⟩ := ih1 h
-        refine ⟨g1, g2, h3.trans g3, ?_⟩
+        obtain ⟨g1, g2, g3, g3q, g4⟩ := ih1 h
+        refine ⟨g1, g2, h3.trans g3, fun k' hk' => g3q k' (h3q k' hk'), ?_⟩
         intro j hjm kj hkj
         rcases List.mem_cons.1 hjm with hje | hjr
         · subst hje
           rw [hk0] at hkj; cases hkj
-          obtain ⟨m1, m2⟩ := h4 _ hk
-          refine ⟨?_, fun _ => g3.1 _ m1⟩
+          obtain ⟨m1, m2, m3⟩ := h4 _ hk
+          refine ⟨?_, g3q _ m3, fun _ => g3.1 _ m1⟩
           cases hc : (commitLoop (n + 1) (storeObjects (n + 1) s [j]).1 rest).1.added.get k with
           | none => rfl
           | some j' => have := g3.2 k j' hc; rw [m2] at this; cases this
@@ -1229,8 +1316,8 @@ theorem commitLoop_prog {s0 : State} (hN : NewOK s0)
       rename_i hcond
       obtain ⟨ih1, ih2⟩ := ih s hP hj hrest
       refine ⟨fun h => ?_, ih2⟩
-      obtain ⟨g1, g2, g3, g4⟩ := ih1 h
-      refine ⟨g1, g2, g3, ?_⟩
+      obtain ⟨g1, g2, g3, g3q, g4⟩ := ih1 h
+      refine ⟨g1, g2, g3, g3q, ?_⟩
       intro j hjm kj hkj
       rcases List.mem_cons.1 hjm with hje | hjr
       · subst hje
@@ -1238,7 +1325,15 @@ theorem commitLoop_prog {s0 : State} (hN : NewOK s0)
         simp only [Bool.or_eq_true, Bool.not_eq_true', Bool.or_eq_false_iff, not_or,
           Bool.not_eq_true, bne_eq_false_iff_eq, not_and] at hcond
         obtain ⟨hnadd, hcr⟩ := hcond
-        refine ⟨?_, ?_⟩
+        have hqs : Q s k := by
+          apply hQskip s hP hj j k hk hnadd
+          by_cases hc : s.creating.has k = true
+          · exact Or.inl hc
+          · right
+            intro hch
+            have := hcr (by simpa using hc)
+            rw [hch] at this; simp at this
+        refine ⟨?_, g3q _ hqs, ?_⟩
         · cases hc : (commitLoop (n + 1) s rest).1.added.get k with
           | none => rfl
           | some j' =>
